@@ -118,6 +118,18 @@ static void gen_pump(int tier)
 		}
 		if (P(12))
 			gx_add_fault(P(70) ? FS_WRITE : FS_READ, 1, 1 + R(40), 0, P(50) ? EIO : EPIPE, 0, 0);
+		if (P(35)) {
+			/* the application also calls the pump on its own: once after set-up and / or from a
+			 * timer that keeps coming back, whatever the descriptors' state is at that moment */
+			if (P(50))
+				gx_add_op(CTX_SETUP, 0, 0, OP_POST, pu, 0, 0, 0);
+			if (P(75)) {
+				int tm = gx_add_obj(K_TIMER, 0);
+				gx_add_op(CTX_SETUP, 0, 0, OP_REG, tm, 1, P(60) ? 1000 * (1 + R(2000)) : gx_delta(), 0);
+				gx_add_op(CTX_CB, tm, 0, OP_POST, pu, 0, 0, 0);
+				gx_add_op(CTX_CB, tm, 0, OP_REG, tm, 1, P(60) ? 1000 * (1 + R(2000)) : gx_delta(), 0);
+			}
+		}
 	}
 	gx_absent(8);
 	gx_eintr(1, 12);
